@@ -58,12 +58,19 @@ META = {
 # ------------------------------------------------------------------------------------------
 # scenarios
 # ------------------------------------------------------------------------------------------
-# msg   = [type char, id, own MsgSeqNum or None, possdup, gapfill(, True: carries 43=N - an ordinary new message for the model)]
+# msg   = [type char, id, own MsgSeqNum or None, possdup, gapfill(, True: carries 43=N - an ordinary new message for the model
+#          (, frame size in bytes: Account(1) is padded so that the encoded frame has exactly that length - frame size has
+#           no influence on behaviour in the model))]
 # task  = ["send", [msg..]] | ["hb"] | ["in", kind, ...]   kind: "testreq" | "gap" | "app" | "logon" | "resend", b, e, [declined]
 
 
 def D(i):
     return ["D", i, None, False, False]
+
+
+def DS(i, size):
+    """application message whose encoded frame is exactly `size` bytes long"""
+    return ["D", i, None, False, False, False, size]
 
 
 HB = ["0", 0, None, False, False]
@@ -82,6 +89,19 @@ def scenarios(tier):
     S.append(scn("3 senders 2/1/1", [["send", [D(1), D(2)]], ["send", [D(3)]], ["send", [D(4)]]]))
     S.append(scn("2 senders + heartbeat probe", [["send", [D(1), D(2)]], ["send", [D(3)]], ["hb"]]))
     S.append(scn("sender + probe refused (pending)", [["send", [D(1)]], ["hb"]], treq=True))
+    # raw TestRequests from an application task next to the probe: another id / no id is always refused without consuming
+    # a number, the registered id goes out only while the probe is pending
+    S.append(scn("probe + raw TestRequest with another id", [["hb"], ["send", [["1", 777, None, False, False], D(2)]]]))
+    S.append(scn("probe + raw TestRequest without id", [["hb"], ["send", [D(1), ["1", -1, None, False, False]]]]))
+    S.append(scn("probe + raw TestRequest with the registered id", [["hb"], ["send", [["1", 0, None, False, False], D(2)]]]))
+    S.append(scn("gap (RESENDREQ_AWAITING) + probe", [["in", "gap"], ["hb"]]))
+    # frame sizes around typical buffer thresholds, sent concurrently with small frames under back-pressure
+    for size in (1024, 4095, 4096, 4097, 8192, 65536):
+        S.append(scn("frame of %d bytes + small sender" % size, [["send", [DS(1, size)]], ["send", [D(2)]]]))
+    S.append(scn("large and small frames x 2", [["send", [DS(1, 8192), D(2)]], ["send", [D(3), DS(4, 4097)]]]))
+    S.append(scn("large frame + heartbeat probe + reader reply", [["send", [DS(1, 5000)]], ["hb"], ["in", "testreq"]]))
+    S.append(scn("resend over a large row + sender", [["in", "resend", 1, 0, []], ["send", [DS(9, 4200)]]],
+                 pre=[DS(1, 6000), D(2)]))
     S.append(scn("reader TestRequest reply + 2 senders", [["in", "testreq"], ["send", [D(1), D(2)]], ["send", [D(3)]]]))
     S.append(scn("reader gap ResendRequest + 2 senders", [["in", "gap"], ["send", [D(1), D(2)]], ["send", [D(3)]]]))
     S.append(scn("reader on_message + sender", [["in", "app"], ["send", [D(1), D(2)]]]))
@@ -349,6 +369,12 @@ class Impl:
         fm = self.FIXMessage(m[0])
         if m[0] == "4":
             fm.set(36, str(m[1]))
+        elif m[0] == "1":
+            # a raw TestRequest: id 0 = carries the TestReqID the pending probe registered, > 0 = another id, < 0 = none
+            if m[1] == 0:
+                fm.set(112, str(self.conn._test_req_id))
+            elif m[1] > 0:
+                fm.set(112, str(m[1]))
         elif m[1]:
             fm.set(58, str(m[1]))
         if m[2] is not None:
@@ -359,7 +385,23 @@ class Impl:
             fm.set(43, "N")
         if m[4]:
             fm.set(123, "Y")
+        if len(m) > 6 and m[6]:
+            fm.set(1, "x" * self.pad_for(m, m[6]))
         return fm
+
+    def pad_for(self, m, size):
+        """length of the Account(1) value that makes the frame of new message m exactly `size` bytes (mk is called in the
+        same synchronous stretch as the allocation, so next_num_out is the number the frame will carry)"""
+        seq = m[2] if m[2] is not None else self.conn._session.next_num_out
+        fields = ["35=%s" % m[0], "49=%s" % SENDER, "56=%s" % TARGET, "34=%d" % seq, "52=%s" % TIME]
+        if m[1]:
+            fields.append("58=%d" % m[1])
+        base = sum(len(f) + 1 for f in fields) + len("1=") + 1      # body without the padding characters
+        fixed = len("8=%s" % BEGIN) + 1 + len("10=000") + 1
+        for pad in range(max(1, size - base - fixed - 8), size):
+            if fixed + len("9=%d" % (base + pad)) + 1 + base + pad == size:
+                return pad
+        raise ValueError("no padding gives a frame of %d bytes" % size)
 
     async def prehistory(self):
         for m in self.s["pre"]:
@@ -590,13 +632,22 @@ def oracle(s, obs, extra):
     n_pre = extra["n_pre"]
     persisted = sorted(bytes.fromhex(e[1]) for e in extra["events"] if e[0] == "P" and e[2])
     sent_new = sorted(bytes.fromhex(d) for d, f in zip(extra["wire_raw"][n_pre:], wire[n_pre:]) if is_new(f))
-    if persisted != sent_new:
-        bad.append("%d new frame(s) written, %d frame(s) journaled" % (len(sent_new), len(persisted)))
+    done = all(t[2] == 3 for t in tasks)
+    missing = list(sent_new)
+    for x in persisted:
+        if x in missing:
+            missing.remove(x)
+    if missing or (done and persisted != sent_new):
+        # (a frame that is journaled but not written yet while its sender is suspended is not a frame on the wire:
+        #  equality is required once all tasks have finished, inclusion at every moment)
+        bad.append("%d new frame(s) written, %d frame(s) journaled, %d written frame(s) without a journal row" % (
+            len(sent_new), len(persisted), len(missing)))
     want = {}
     for f in new:
         want.setdefault(f[0], f)
     holes = set(s.get("holes", []))
-    if rows != [[k, want[k]] for k in sorted(want) if k not in holes]:
+    expect = [[k, want[k]] for k in sorted(want) if k not in holes]
+    if (rows != expect) if done else any(r not in rows for r in expect):
         bad.append("journal rows %r differ from the messages sent %r" % (rows, sorted(want.items())))
     for f in wire:
         if f[2] and (f[0] not in want or f[0] in holes):
@@ -607,7 +658,7 @@ def oracle(s, obs, extra):
     if any(e[0] == "P" and not e[2] for e in extra["events"]) or any(5 in t[0] or t[1] == [5] for t in tasks):
         bad.append("DuplicateSeqNoError")
     # stored counter = highest number sent
-    if new and sout != max(f[0] for f in new):
+    if new and ((sout != max(f[0] for f in new)) if done else (sout < max(f[0] for f in new))):
         bad.append("stored outbound counter %d, highest number sent %d" % (sout, max(f[0] for f in new)))
     return bad
 
@@ -705,6 +756,11 @@ def run(ctx):
         ctx.case((s["name"], tuple(sched)), extra["resumed"] >= 2,
                  sample={"scenario": s["name"], "sched": sched, "obs": obs} if (len(sched) == 6 and len(ctx.samples) < 3) else None)
         ctx.count("scn:" + s["name"])
+        for t in s["tasks"]:
+            if t[0] == "send":
+                for m in t[1]:
+                    if len(m) > 6 and m[6]:
+                        ctx.count("frame-bytes:%d" % m[6])
         ctx.traces += 1
         if mo is not None and mo != obs and not extra["stuck"]:
             ctx.disagree({"scn": s, "sched": sched}, obs, mo, "schedule-observation")
